@@ -10,6 +10,44 @@ ASSUMPTIONS = ["stack reader is a pure partial function", "overflow-checked (deb
                "release build run in the thorough tier", "valid modules: sections produced by the encoders in gen/fhgen.py"]
 TRUSTED_BASE = ["modelled not verified: gimli (CFI parsing/row computation), arrayvec"]
 
+def macho_opgrid(rng, tier):
+    import machotruth as mt
+    from fhgen import Script, hx, BOUNDARY, M64
+    out = []
+    # compact-unwind opcodes that are well-formed as far as the format goes but that no compiler would emit for a real
+    # function: frameless-immediate entries with every register count, rbp at every position of the list and stack
+    # sizes too small to hold what the list says is saved (and comfortable ones); every probe in both roles
+    for w in range(1 if tier == "quick" else 4):
+        s = Script("x86", "may" if w % 2 == 0 else "must")
+        funcs = []
+        pos = 0x1000
+        for cnt in range(1, 7):
+            for p_ in range(cnt):
+                for words in (1, 2, 3, 4, 6, 8, 32):
+                    f = mt.Func("x86", "g%d" % len(funcs), "opgrid")
+                    rl = [1, 2, 3, 4, 5][:cnt - 1]
+                    rl.insert(p_, 6)                                       # rbp (register 6) at position p_
+                    f.emit(mt.I("fill"), "body", bytes([0x90] * 0x10))
+                    f.opcode = (2 << 24) | (words << 16) | (cnt << 10) | (mt.perm_encode(rl) & 0x3ff)
+                    f.start = pos; pos += 0x10
+                    funcs.append(f)
+        text = bytearray([0xCC] * (pos - 0x1000))
+        for f in funcs:
+            text[f.start - 0x1000: f.start - 0x1000 + f.length] = f.text()
+        prog = dict(arch="x86", funcs=funcs, text_lo=0x1000, text=bytes(text), stubs=(pos, pos + 12), helper=(pos + 12, pos + 48), end=pos + 48)
+        base = 0x100000000 + 0x10000 * rng.below(256)
+        mt.module_macho(s, "M", prog, base, 0x100000000, rng, merge=False)
+        s.add("new U"); s.add("add U M"); s.add("newcache C")
+        lo = 0x10000 * rng.range(1, 0xfff)
+        s.mem("S", [(lo + 8 * i, rng.choice([0, lo + 8 * rng.below(0x100), rng.u64(), base + 0x1000 + rng.below(0x400)])) for i in range(0x100)])
+        for f in funcs:
+            for mode in ("ip", "ra"):
+                addr = base + f.start + 4 + (1 if mode == "ra" else 0)
+                regs = s.regs_x86(addr, rng.choice([lo + 8 * rng.below(0x80), rng.choice(BOUNDARY)]), rng.choice([lo + 8 * rng.below(0x80), rng.choice(BOUNDARY)]))
+                s.add("unwind U C %s %s %s S" % (mode, hx(addr), regs), tag="macho:x86:opgrid:%s" % mode)
+        out.append(("macho-opgrid-%d" % w, s))
+    return out
+
 def generate(rng, tier):
     n = 6000 if tier == "quick" else 150000
     out = []
@@ -151,38 +189,7 @@ def generate(rng, tier):
                 s.add("unwind U C %s %s %s %s" % (mode, hx(addr), regs, rng.choice(["S", "E"])),
                       tag="macho:%s:synthetic:%s" % (arch, mode))
         out.append(("macho-valid-%d" % w, s))
-    # compact-unwind opcodes that are well-formed as far as the format goes but that no compiler would emit for a real
-    # function: frameless-immediate entries with every register count, rbp at every position of the list and stack
-    # sizes too small to hold what the list says is saved (and comfortable ones); every probe in both roles
-    for w in range(1 if tier == "quick" else 4):
-        s = Script("x86", "may" if w % 2 == 0 else "must")
-        funcs = []
-        pos = 0x1000
-        for cnt in range(1, 7):
-            for p_ in range(cnt):
-                for words in (1, 2, 3, 4, 6, 8, 32):
-                    f = mt.Func("x86", "g%d" % len(funcs), "opgrid")
-                    rl = [1, 2, 3, 4, 5][:cnt - 1]
-                    rl.insert(p_, 6)                                       # rbp (register 6) at position p_
-                    f.emit(mt.I("fill"), "body", bytes([0x90] * 0x10))
-                    f.opcode = (2 << 24) | (words << 16) | (cnt << 10) | (mt.perm_encode(rl) & 0x3ff)
-                    f.start = pos; pos += 0x10
-                    funcs.append(f)
-        text = bytearray([0xCC] * (pos - 0x1000))
-        for f in funcs:
-            text[f.start - 0x1000: f.start - 0x1000 + f.length] = f.text()
-        prog = dict(arch="x86", funcs=funcs, text_lo=0x1000, text=bytes(text), stubs=(pos, pos + 12), helper=(pos + 12, pos + 48), end=pos + 48)
-        base = 0x100000000 + 0x10000 * rng.below(256)
-        mt.module_macho(s, "M", prog, base, 0x100000000, rng, merge=False)
-        s.add("new U"); s.add("add U M"); s.add("newcache C")
-        lo = 0x10000 * rng.range(1, 0xfff)
-        s.mem("S", [(lo + 8 * i, rng.choice([0, lo + 8 * rng.below(0x100), rng.u64(), base + 0x1000 + rng.below(0x400)])) for i in range(0x100)])
-        for f in funcs:
-            for mode in ("ip", "ra"):
-                addr = base + f.start + 4 + (1 if mode == "ra" else 0)
-                regs = s.regs_x86(addr, rng.choice([lo + 8 * rng.below(0x80), rng.choice(BOUNDARY)]), rng.choice([lo + 8 * rng.below(0x80), rng.choice(BOUNDARY)]))
-                s.add("unwind U C %s %s %s S" % (mode, hx(addr), regs), tag="macho:x86:opgrid:%s" % mode)
-        out.append(("macho-opgrid-%d" % w, s))
+    out += macho_opgrid(rng, tier)
     return out
 
 def k_s5_dep(script, ln, impl_line, desc):
